@@ -4,7 +4,10 @@ import (
 	"encoding/hex"
 	"errors"
 	"fmt"
+	"reflect"
+	"sort"
 	"strings"
+	"time"
 
 	psatoken "github.com/veraison/psatoken"
 )
@@ -62,7 +65,11 @@ func obsSw(sc psatoken.ISwComponent) string {
 		ver, e3 := sc.GetVersion()
 		sid, e4 := sc.GetSignerID()
 		md, e5 := sc.GetMeasurementDesc()
-		fmt.Fprintf(&sb, "{mt=%q/%s mv=%x/%s ver=%q/%s sid=%x/%s md=%q/%s}", mt, ec(e1), mv, ec(e2), ver, ec(e3), sid, ec(e4), md, ec(e5))
+		fmt.Fprintf(&sb, "{mt=%q/%s mv=%x/%s ver=%q/%s sid=%x/%s md=%q/%s", mt, ec(e1), mv, ec(e2), ver, ec(e3), sid, ec(e4), md, ec(e5))
+		if x, ok := sc.(interface{ GetXExtra() string }); ok {
+			sb.WriteString(" x=" + x.GetXExtra())
+		}
+		sb.WriteString("}")
 		return sb.String()
 	})
 }
@@ -161,4 +168,123 @@ func obsEvidence(e *psatoken.Evidence) string {
 		}))
 	}
 	return sb.String()
+}
+
+// structObs renders what a caller can see of a value WITHOUT calling any of its
+// methods: exported fields, recursively, with nil / non-nil pointers, interfaces
+// and slices told apart. A read-side call that rewrites an exported field (a nil
+// container where an empty one was, a cleared pointer) changes this rendering
+// even when every getter still answers the same.
+func structObs(x any) string {
+	var sb strings.Builder
+	func() {
+		defer func() {
+			if r := recover(); r != nil {
+				fmt.Fprintf(&sb, "PANIC(%v)", r)
+			}
+		}()
+		structWalk(&sb, reflect.ValueOf(x), 0)
+	}()
+	return sb.String()
+}
+
+var timeType = reflect.TypeOf(time.Time{})
+
+func structWalk(sb *strings.Builder, v reflect.Value, depth int) {
+	if !v.IsValid() {
+		sb.WriteString("<invalid>")
+		return
+	}
+	if depth > 10 {
+		sb.WriteString("...")
+		return
+	}
+	switch v.Kind() {
+	case reflect.Ptr:
+		if v.IsNil() {
+			sb.WriteString("nil")
+			return
+		}
+		sb.WriteString("&")
+		structWalk(sb, v.Elem(), depth+1)
+	case reflect.Interface:
+		if v.IsNil() {
+			sb.WriteString("nil-iface")
+			return
+		}
+		fmt.Fprintf(sb, "<%s>", v.Elem().Type())
+		structWalk(sb, v.Elem(), depth+1)
+	case reflect.Struct:
+		if v.Type() == timeType && v.CanInterface() {
+			fmt.Fprintf(sb, "time(%d)", v.Interface().(time.Time).UnixNano())
+			return
+		}
+		sb.WriteString("{")
+		t := v.Type()
+		for i := 0; i < v.NumField(); i++ {
+			f := t.Field(i)
+			if f.PkgPath != "" { // unexported: not observable
+				continue
+			}
+			sb.WriteString(f.Name)
+			sb.WriteString(":")
+			structWalk(sb, v.Field(i), depth+1)
+			sb.WriteString(",")
+		}
+		sb.WriteString("}")
+	case reflect.Slice:
+		if v.IsNil() {
+			sb.WriteString("nil[]")
+			return
+		}
+		if v.Type().Elem().Kind() == reflect.Uint8 {
+			fmt.Fprintf(sb, "h'%x'", v.Bytes())
+			return
+		}
+		fmt.Fprintf(sb, "[%d:", v.Len())
+		for i := 0; i < v.Len(); i++ {
+			structWalk(sb, v.Index(i), depth+1)
+			sb.WriteString(",")
+		}
+		sb.WriteString("]")
+	case reflect.Array:
+		sb.WriteString("[")
+		for i := 0; i < v.Len(); i++ {
+			structWalk(sb, v.Index(i), depth+1)
+			sb.WriteString(",")
+		}
+		sb.WriteString("]")
+	case reflect.Map:
+		if v.IsNil() {
+			sb.WriteString("nil-map")
+			return
+		}
+		keys := make([]string, 0, v.Len())
+		vals := map[string]reflect.Value{}
+		for _, k := range v.MapKeys() {
+			ks := fmt.Sprintf("%v", k)
+			keys = append(keys, ks)
+			vals[ks] = v.MapIndex(k)
+		}
+		sort.Strings(keys)
+		sb.WriteString("map{")
+		for _, k := range keys {
+			sb.WriteString(k + ":")
+			structWalk(sb, vals[k], depth+1)
+			sb.WriteString(",")
+		}
+		sb.WriteString("}")
+	case reflect.String:
+		fmt.Fprintf(sb, "%q", v.String())
+	case reflect.Bool:
+		fmt.Fprintf(sb, "%v", v.Bool())
+	case reflect.Int, reflect.Int8, reflect.Int16, reflect.Int32, reflect.Int64:
+		fmt.Fprintf(sb, "%d", v.Int())
+	case reflect.Uint, reflect.Uint8, reflect.Uint16, reflect.Uint32, reflect.Uint64, reflect.Uintptr:
+		fmt.Fprintf(sb, "%d", v.Uint())
+	case reflect.Float32, reflect.Float64:
+		fmt.Fprintf(sb, "%v", v.Float())
+	default:
+		fmt.Fprintf(sb, "<%s>", v.Kind())
+	}
 }
